@@ -3,6 +3,7 @@ import PraatModel.Time
 import PraatModel.Py
 import PraatModel.Tier
 import PraatModel.Crop
+import PraatModel.Ops
 import PraatModel.Proto
 import PraatModel.Run
 import PraatModel.Lemmas.Tier
